@@ -187,6 +187,129 @@ c12_hdr!(c12_hdr_n4_b2, 4, 2, 7);
 c12_hdr!(c12_hdr_n4_b3, 4, 3, 7);
 c12_hdr!(c12_hdr_n5_b3, 5, 3, 8);
 
+// C12 with an ENUMERATED chunking: the inner reader delivers the chunk sizes of a concrete
+// schedule (one harness instance per composition of N), the bytes stay symbolic.  With
+// concrete read sizes every loop folds, which makes N = 3, 4 affordable.
+struct SchedReader<'a> {
+    data: &'a [u8],
+    pos: usize,
+    sched: [usize; 4],
+    next: usize,
+}
+
+impl<'a> Read for SchedReader<'a> {
+    fn read(&mut self, buf: &mut [u8]) -> io::Result<usize> {
+        let rem = self.data.len() - self.pos;
+        if rem == 0 || buf.is_empty() {
+            return Ok(0);
+        }
+        let k = if self.next < 4 { self.sched[self.next] } else { rem };
+        assert!(k >= 1 && k <= rem && k <= buf.len(), "verif: harness bound (schedule does not fit)");
+        let mut i = 0;
+        while i < k {
+            buf[i] = self.data[self.pos + i];
+            i += 1;
+        }
+        self.pos += k;
+        self.next += 1;
+        Ok(k)
+    }
+}
+
+fn c12_sched_body<const N: usize, const CALLS: usize, const S0: usize, const S1: usize, const S2: usize, const S3: usize>() {
+    let data: [u8; N] = kani::any();
+    let sres = strip_junk_header(&data);
+    let (s_ok, s_start) = match &sres {
+        Ok(rest) => (true, N - rest.len()),
+        Err(_) => (false, 0),
+    };
+    forget(sres);
+    let mut rdr = StripHeaderReader::new(SchedReader { data: &data, pos: 0, sched: [S0, S1, S2, S3], next: 0 });
+    let mut out = [0u8; N];
+    let mut n_out = 0usize;
+    let mut r_ok = true;
+    let mut finished = false;
+    let mut calls = 0;
+    // at most one caller read per scheduled chunk, plus the read that reports the end
+    while calls < CALLS {
+        let mut buf = [0u8; N];
+        let r = rdr.read(&mut buf[..]);
+        match r {
+            Ok(0) => {
+                finished = true;
+                break;
+            }
+            Ok(k) => {
+                let mut i = 0;
+                while i < k {
+                    assert!(n_out < N, "C12/reader-never-produces-more-than-input");
+                    out[n_out] = buf[i];
+                    n_out += 1;
+                    i += 1;
+                }
+            }
+            Err(e) => {
+                forget(e);
+                r_ok = false;
+                finished = true;
+                break;
+            }
+        }
+        calls += 1;
+    }
+    assert!(finished, "verif: harness bound on the number of reads too small");
+    assert!(r_ok == s_ok, "C12/reader-and-slice-fail-together");
+    if r_ok && s_ok {
+        let had_header = is_junk_json(data[0]);
+        let mut exp_start = s_start;
+        if had_header && exp_start < N && data[exp_start] == b'\n' {
+            exp_start += 1;
+        }
+        assert!(n_out == N - exp_start, "C12/reader-output-length-matches-slice");
+        let mut i = 0;
+        while i < N {
+            if i < n_out {
+                assert!(out[i] == data[exp_start + i], "C12/reader-output-bytes-match-slice");
+            }
+            i += 1;
+        }
+    }
+    kani::cover!(s_ok && is_junk_json(data[0]) && data[1] == b'\n' && n_out == N - 2, "LF header, payload follows");
+    kani::cover!(s_ok && is_junk_json(data[0]) && data[1] == b'\r' && data[2] == b'\n', "CRLF header");
+    kani::cover!(!s_ok, "bare CR rejected");
+    kani::cover!(s_ok && !is_junk_json(data[0]) && n_out == N, "no header");
+    forget(rdr);
+}
+
+macro_rules! c12_sched {
+    ($name:ident, $n:literal, $calls:literal, $s0:literal, $s1:literal, $s2:literal, $s3:literal, $u:literal) => {
+        #[kani::proof]
+        #[kani::unwind($u)]
+        fn $name() {
+            c12_sched_body::<$n, $calls, $s0, $s1, $s2, $s3>()
+        }
+    };
+}
+// all compositions of 3
+c12_sched!(c12_sched_n3_111, 3, 4, 1, 1, 1, 9, 5);
+c12_sched!(c12_sched_n3_12, 3, 3, 1, 2, 9, 9, 5);
+c12_sched!(c12_sched_n3_21, 3, 3, 2, 1, 9, 9, 5);
+c12_sched!(c12_sched_n3_3, 3, 2, 3, 9, 9, 9, 5);
+// all compositions of 4
+c12_sched!(c12_sched_n4_1111, 4, 5, 1, 1, 1, 1, 6);
+c12_sched!(c12_sched_n4_112, 4, 4, 1, 1, 2, 9, 6);
+c12_sched!(c12_sched_n4_121, 4, 4, 1, 2, 1, 9, 6);
+c12_sched!(c12_sched_n4_211, 4, 4, 2, 1, 1, 9, 6);
+c12_sched!(c12_sched_n4_22, 4, 3, 2, 2, 9, 9, 6);
+c12_sched!(c12_sched_n4_13, 4, 3, 1, 3, 9, 9, 6);
+c12_sched!(c12_sched_n4_31, 4, 3, 3, 1, 9, 9, 6);
+c12_sched!(c12_sched_n4_4, 4, 2, 4, 9, 9, 9, 6);
+// single-read and two-read schedules of 5 and 6 bytes
+c12_sched!(c12_sched_n5_5, 5, 2, 5, 9, 9, 9, 7);
+c12_sched!(c12_sched_n6_6, 6, 2, 6, 9, 9, 9, 8);
+c12_sched!(c12_sched_n5_23, 5, 3, 2, 3, 9, 9, 7);
+c12_sched!(c12_sched_n5_32, 5, 3, 3, 2, 9, 9, 7);
+
 // ---------------------------------------------------------------------------
 // C02: kind dispatch, debug-id precedence, index sections (RawSourceMap values built
 // here, i.e. what serde_json hands to decode_common).
